@@ -189,6 +189,14 @@ def expected_stale(spec, output):
     return c
 
 
+INTERNAL_LABELS = ("gather_list", "gather_tuple", "gather_set", "gather_dict", "unpack", "getitem")
+
+
+def user_part(counter):
+    """The entries of a per-scope counter whose label is not a library-internal call."""
+    return collections.Counter({k: v for k, v in counter.items() if not (k and k[-1] in INTERNAL_LABELS)})
+
+
 def norm_scope(scope):
     """Strip module prefixes of library-internal labels (matched by qualified-name suffix)."""
     out = list(scope)
@@ -365,19 +373,25 @@ def check_case(ctx, case, record=True):
             if e[0] == "total":
                 (tot_run if e[1] == "run" else tot_stale)[norm_scope(e[2])] += e[3]
         stale_failed = any(e[0] == "failed" and e[1] == "stale" for e in r.events)
-        if not stale_failed and tot_run != exp_run:
-            ctx.violation(case2, f"observer {ri}: 'run' totals {dict(tot_run)} differ from the calls of the physical plan "
-                                 f"{dict(exp_run)} (extra {dict(tot_run - exp_run)}, missing {dict(exp_run - tot_run)})")
+        # Scopes of user functions and store operations are compared with what the model says is executed; scopes of
+        # library-internal calls (gather built-ins, unpack, getitem) only have to be self-consistent (announced ==
+        # reported completed, checked by validate_sequence): how many such calls an implementation creates for a
+        # structure is its own business.
+        if not stale_failed and user_part(tot_run) != user_part(exp_run):
+            a, b = user_part(tot_run), user_part(exp_run)
+            ctx.violation(case2, f"observer {ri}: 'run' totals {dict(a)} differ from the calls of the physical plan "
+                                 f"{dict(b)} (extra {dict(a - b)}, missing {dict(b - a)})")
         if use_reg:
             exp_stale = expected_stale(spec, output)
-            if tot_stale != exp_stale:
+            a, b = user_part(tot_stale), user_part(exp_stale)
+            if a != b:
                 ctx.violation(case2, f"observer {ri}: 'stale' totals differ from the calls examined: extra "
-                                     f"{dict(tot_stale - exp_stale)}, missing {dict(exp_stale - tot_stale)}")
+                                     f"{dict(a - b)}, missing {dict(b - a)}")
         elif tot_stale:
             ctx.violation(case2, f"observer {ri}: 'stale' totals announced without a registry: {dict(tot_stale)}")
         if out.status == "ok":
             comp = collections.Counter(norm_scope(e[2]) for e in r.events if e[0] == "completed" and e[1] == "run")
-            if comp != exp_run:
+            if user_part(comp) != user_part(exp_run):
                 ctx.violation(case2, f"observer {ri}: completed per scope {dict(comp)} != executed calls per scope {dict(exp_run)}")
     # observed executions of user calls and store operations agree with the announced run totals
     if out.status == "ok":
